@@ -24,7 +24,7 @@ RULE = ('family = one generated indexable pipeline (source, 1-3 stages from map 
         'Non-trivial = a fault fired; distinct = distinct (pipeline, fault plan, mode).')
 PROBES = ['second_pass_differs_from_first', 'foreign_exception_propagated', 'caught_at_first_position',
           'caught_at_last_position', 'several_positions_dropped', 'subclass_caught',
-          'items_iteration_with_drop']
+          'items_iteration_with_drop', 'cache_below_catch_second_pass']
 BUDGET = {
     'quick': {'families': 20000, 'wall_cap': 420, 'shrink_s': 10},
     'thorough': {'families': 200000, 'wall_cap': 5400, 'shrink_s': 30},
@@ -39,9 +39,9 @@ COMPONENTS = {
 ASSUMPTIONS = ['single thread, no schedule: the fault plan is the whole search space',
                'a failing example fails deterministically on every evaluation']
 
-KINDS = ['filter', 'filter_sub', 'value', 'key', 'index']
+KINDS = ['filter', 'filter_sub', 'value', 'key', 'index', 'notimpl']
 CATCHES = ['filter', 'filter', 'value', ['filter', 'key'], ['value', 'key'], 'filter_sub',
-           ['filter', 'index'], 'index']
+           ['filter', 'index'], 'index', ['value', 'notimpl']]
 
 
 def gen_desc(rng):
@@ -57,7 +57,7 @@ def gen_desc(rng):
         for j in range(rng.randrange(0, 3)):
             for _try in range(6):
                 op = rng.choice(['map', 'map', 'slice', 'batch', 'items', 'concat',
-                                 'zip', 'sort', 'shuffle', 'filter_eager'])
+                                 'zip', 'sort', 'shuffle', 'filter_eager', 'cache'])
                 sts = _mk(rng, op, a, 'u%d' % (j + 1), 100 * (j + 1))
                 b = pargen.abs_apply(a, sts[0])
                 if b is not None and b.indexable:
@@ -84,6 +84,10 @@ def _mk(rng, op, a, sid, offset):
                  'mod': rng.randrange(2, 4), 'rem': rng.randrange(0, 2)}]
     if op == 'map':
         return [{'op': 'map', 'id': sid}]
+    if op == 'cache':
+        # a memory cache below the catch: the second pass is served from it
+        # (examples that raised are evaluated, and raise, again)
+        return [{'op': 'cache'}]
     if op == 'slice':
         return [{'op': 'slice', 'sl': pargen._rand_slice(rng, n)}]
     if op == 'batch':
@@ -143,10 +147,15 @@ def gen(rng, tier, index):
                           for _k in range(rng.randrange(1, 3))])
     cases = []
     nout = len((a.elems if not reshuffled else a.elems_below) or [])
+    cached = any(s_['op'] == 'cache' for s_ in desc['stages'])
     for plan in plans:
         cases.append({'mode': 'catch', 'desc': desc, 'catch': catch, 'faults': plan,
                       'items': items, 'down': down, 'warn': rng.random() < 0.25,
                       'stop_k': rng.randrange(0, nout + 1) if rng.random() < 0.3 else None})
+        if cached and any('pass' in f for f in plan):
+            # with a cache the second pass depends on how far the first one
+            # went; the reference evaluates every position, so does the run
+            cases[-1]['stop_k'] = None
     return cases
 
 
@@ -304,6 +313,8 @@ def run(case):
                 'a foreign exception was replaced by an equal copy'))
             break
     expected, terminal, dropped = per_pass[0]
+    if any(s_['op'] == 'cache' for s_ in desc['stages']) and fired:
+        probes['cache_below_catch_second_pass'] = 1
     if per_pass[0][2] != per_pass[1][2] or per_pass[0][0] != per_pass[1][0]:
         probes['second_pass_differs_from_first'] = 1
     if terminal is not None:
